@@ -106,14 +106,20 @@ def matching_items(block, ref, axis):
     return out
 
 
-def nts_form(nts):
+def nts_form(nts, N=None):
     if nts is None:
         return ["none"]
     if isinstance(nts, (int, np.integer)):
         return ["int", int(nts)]
     p = int(round(nts * 8))
-    assert p / 8 == nts
-    return ["frac", p, 8]
+    if p / 8 == nts:
+        return ["frac", p, 8]
+    # any other fraction (0.58, 3/11, ...): the double the caller passes, as an exact rational rounded DOWN to a multiple of
+    # 1/(1000 N) - the count floor(N p / q) it implies is that of the exact value (floor(floor(1000 N f) / 1000) = floor(N f))
+    from fractions import Fraction
+    import math
+    q = 1000 * int(N)
+    return ["frac", int(math.floor(Fraction(float(nts)) * q)), q]
 
 
 def thr_form(thr, thr_type, unit):
@@ -167,7 +173,7 @@ class Recorder:
         obj.score_threshold_type = thr_type
         self.calls = []
         N = X.shape[self.axis]
-        ev = {"a": "begin", "nts": nts_form(nts), "thr": thr_form(thr, thr_type, self.unit), "warm": bool(warm),
+        ev = {"a": "begin", "nts": nts_form(nts, N), "thr": thr_form(thr, thr_type, self.unit), "warm": bool(warm),
               "init": [int(i) + 1 for i in (init or [])], "raised": False, "msg": ""}
         raised = None
         with warnings.catch_warnings():
@@ -208,7 +214,7 @@ class Recorder:
             table = snap_exact(s, self.unit, "score") if self.exact else q(s, self.unit)
             self.events.append({"a": "step", "c": int(c), "score": table})
         if raised is not None:
-            self.events.append({"a": "raised", "nts": nts_form(nts)[0], "msg": "%s: %s" % (type(raised).__name__, str(raised)[:120])})
+            self.events.append({"a": "raised", "nts": nts_form(nts, X.shape[self.axis])[0], "msg": "%s: %s" % (type(raised).__name__, str(raised)[:120])})
             return False
         ev = {"a": "post", "p": self.project(X, y if with_y else None), "warm": bool(warm)}
         if self.fps:
